@@ -10,7 +10,8 @@ MC   : TLC checks Prefix / NilMeansComplete / FaultMeansError / NoCarryOver / On
        check after a call / after a literal write) must each be rejected.
 GEN  : every terminal behaviour TLC reached (program, fault plan(s), predicted bytes / error / evaluation
        counts / flush points / pool events) is realised on REAL generated code: the data-driven template
-       harness/c10/interp/interp.templ is generated with the repository's templ CLI at check time and rendered
+       harness/c10/interp/interp.templ is generated with the repository's templ CLI at check time (the closure of a
+       block given to a hand-written component that renders it into its own writer is such generated code) and rendered
        into an instrumented io.Writer with runtime.DefaultBufferSize = the model's Cap.  Single-render cases
        are chained (plan, next plan, no fault) so that every failed render is followed by renders sharing
        the pools.  Verdicts come from the property (prefix, nil => complete, fault => error wrapping the
@@ -38,6 +39,9 @@ NEG = {  # seeded defect -> invariants that may reject it
     "alwaysadopt": {"NilMeansComplete", "FaultMeansError"},
     "nocheckcall": {"Prefix", "NilMeansComplete", "FaultMeansError", "FailStop"},
     "nochecklit": {"FailStop"},
+    # the closure of a block has no deferred release: rendered into a hand-written component's own writer, it fills a
+    # pooled buffer that nobody flushes or releases
+    "blocknorelease": {"OneOwnerFlushes", "NilMeansComplete", "FaultMeansError"},
 }
 
 
@@ -69,7 +73,10 @@ SELFTEST_TRACE = [
     (_sev("end", r=2), None),
     (_sev("begin", r=3), None),
     (_sev("acquire", 1, 3, 2, False), "NoCarryOver.WrongWriter"),
-    (_sev("acquire", 3, 3, 3, False), "OneOwner.SecondAcquire"),
+    (_sev("acquire", 3, 3, 2, False), ["NoCarryOver.WrongWriter", "OneOwner.SecondAcquire"]),
+    (_sev("acquire", 6, 3, -1, False), None),                  # a block rendered into a component's own writer: legitimate
+    (_sev("flush", 6, 3, -1), None),
+    (_sev("release", 6, 3, -1), None),
     (_sev("existing", 4, 3, 3), "ExclusiveBuffer.UseNotHeld"),
     (_sev("release", 1, 3, 3), None),
     (_sev("flush", 1, 3, 3), "ExclusiveBuffer.UseAfterRelease"),
@@ -94,13 +101,15 @@ SELFTEST_TRACE = [
     (_sev("end", r=7), None),
 ]
 SELFTEST_CLEAN = [_sev("begin", r=1), _sev("acquire", 1, 1, 1, False), _sev("existing", 1, 1, 1), _sev("get", 2, 1, dirty=False),
+                  _sev("acquire", 3, 1, -1, False), _sev("existing", 3, 1, -1), _sev("flush", 3, 1, -1), _sev("release", 3, 1, -1),
                   _sev("put", 2, 1, dirty=False), _sev("flush", 1, 1, 1), _sev("release", 1, 1, 1), _sev("end", r=1),
                   _sev("begin", r=2), _sev("acquire", 1, 2, 2, False), _sev("flush", 1, 2, 2), _sev("release", 1, 2, 2), _sev("end", r=2)]
 
 
 def trace_selftest(ck, cfgtext):
     """Every violation kind of the trace spec must fire at exactly the planted lines, whatever other events surround it."""
-    want = [{"line": i + 1, "kind": k} for i, (_, k) in enumerate(SELFTEST_TRACE) if k]
+    want = [{"line": i + 1, "kind": k} for i, (_, ks) in enumerate(SELFTEST_TRACE) if ks
+            for k in ([ks] if isinstance(ks, str) else ks)]
     bad = "".join(json.dumps(e) + "\n" for e, _ in SELFTEST_TRACE)
     st = vlib.tlc("TraceRenderPool", "t.cfg", workers=1, timeout=300, files={"t.cfg": cfgtext, "trace.ndjson": bad})
     rep = st.tagged("TRACE")
@@ -164,14 +173,15 @@ def cfg(name, **kw):
 
 
 # --- seeded random programs for the `big` configuration --------------------------------------------------
-def rand_prog(rng, depth, budget):
-    """A random op sequence of total size <= budget (>= 1) and nesting depth <= depth; returns (ops, size)."""
+def rand_prog(rng, depth, budget, own_ok=True):
+    """A random op sequence of total size <= budget (>= 1) and nesting depth <= depth; returns (ops, size).
+    own_ok: a collecting hand-written callee (hcb 1) may still be used (there is none inside a collected block)."""
     ops, used = [], 0
     while used < budget and (not ops or rng.random() < 0.8):
         left = budget - used
         kinds = ["L", "L", "E", "E", "leaf", "slot"]
         if depth > 1 and left >= 2:
-            kinds += ["call", "flush", "call", "flush"]
+            kinds += ["call", "flush", "call", "flush", "hcb0", "hcb1", "hcb1"]
         if depth > 1 and left >= 3:
             kinds += ["cb", "cb", "join"]
         k = rng.choice(kinds)
@@ -184,11 +194,15 @@ def rand_prog(rng, depth, budget):
         elif k == "slot":
             ops.append(("slot", 0, [], [])); used += 1
         elif k in ("call", "flush"):
-            a, n = rand_prog(rng, depth - 1, left - 1)
+            a, n = rand_prog(rng, depth - 1, left - 1, own_ok)
             ops.append((k, 0, a, [])); used += 1 + n
+        elif k in ("hcb0", "hcb1"):
+            own = k == "hcb1" and own_ok
+            a, n = rand_prog(rng, depth - 1, left - 1, own_ok and not own)
+            ops.append(("hcb", 1 if own else 0, a, [])); used += 1 + n
         else:
-            a, n = rand_prog(rng, depth - 1, left - 2)
-            b, m = rand_prog(rng, depth - 1, left - 1 - n)
+            a, n = rand_prog(rng, depth - 1, left - 2, own_ok)
+            b, m = rand_prog(rng, depth - 1, left - 1 - n, own_ok)
             if k == "cb" and not any(o[0] == "slot" for o in a) and rng.random() < 0.7:
                 a = a + [("slot", 0, [], [])]; n += 1
                 if 1 + n + m > left:
@@ -337,7 +351,7 @@ def main():
     if total["cases"] != len(cases):
         raise vlib.InfraError("harness replayed %d of %d emitted behaviours" % (total["cases"], len(cases)))
     need = ["err/none", "short/none", "zero/none", "none/expr", "none/leaf", "none/cancel", "none/cancelat", "err/expr",
-            "short/leaf", "none/none"]
+            "short/leaf", "none/none", "collector-writer/err"]
     missing = [k for k in need if not kinds.get(k)]
     if missing:
         raise vlib.InfraError("fault plan kinds never replayed: %s" % missing)
@@ -446,7 +460,7 @@ def main():
 
     ck.set("traces_validated_against_impl", total["renders"] + sfx["renders"] + sb["renders"])
     ck.set("exhaustive", True)
-    ck.set("bounds", {"exhaustive_programs": "op grammar {L1,L3,E1,E4,leaf2,slot,call,cb,flush,join} up to %d ops / depth 3 at Cap=2; "
+    ck.set("bounds", {"exhaustive_programs": "op grammar {L1,L3,E1,E4,leaf2,slot,call,cb,flush,join,hcb-passthrough,hcb-collector} up to %d ops / depth 3 at Cap=2; "
                                              "{L1,L2,L5,E2,E4,leaf4,...} up to %d ops at Cap=3" % ((4, 3) if thorough else (3, 2)),
                       "random_programs": "%d seeded programs of 3..6 ops, depth <= 3, Cap 2 and 3" % nbig,
                       "faults": "writer fault at every offset 0..len x {err, short, zero}; every expression / leaf component failing; "
@@ -463,7 +477,9 @@ def main():
     ck.assume("expression/leaf faults are identified by evaluation order; documents are ASCII (EscapeString is the identity on them)")
     ck.assume("bytes.Buffer pool replay: all renders run on one goroutine, so sync.Pool's per-P slot returns the object of the last Put; "
               "measured from the hook events (fails closed if it never happened)")
-    ck.assume("programs are instances of the interp combinator: every component of a program is a generated template")
+    ck.assume("programs are instances of the interp combinator: every component of a program is a generated template, except the leaf "
+              "component and the two hand-written callees of a call with block (pass-through: children into the given writer; "
+              "collector: children into a possibly failing writer of its own, then forwarded); one collector writer per render")
     ck.finish()
 
 
